@@ -61,7 +61,7 @@ def xmlesc(chk, overlays):
         if len(c) == 3 and c[0][0] == "str" and c[1][0] == "lit" and c[2][0] == "lit":
             rows.append((c[0][1], int(c[1][1]), int(c[2][1])))
     site = "%s:%d" % (ent[0]["file"], ent[0]["line"])
-    chk.judge(len(rows) == len(XML_ENTITIES), "XMLESC", "table:five-entities", site, "entity table has %d parsed rows" % len(rows))
+    chk.shape(len(rows) == len(XML_ENTITIES), "XMLESC", "table:five-entities", site, "entity table has %d parsed rows" % len(rows))
     for k, (text, ln, ch) in enumerate(rows):
         chk.judge(XML_ENTITIES.get(text) == ch, "XMLESC", "table:%s->chr" % text, site, "%s decodes to character %d (XML: %s)" % (text, ch, XML_ENTITIES.get(text)))
         chk.judge(ln == len(text), "XMLESC", "table:%s:length" % text, site, "stored length %d, text length %d" % (ln, len(text)))
@@ -123,7 +123,7 @@ def xmlesc(chk, overlays):
             allowed = g.name in KEEP_QUOTES_ALLOWED and (g.name != "SimTK::TiXmlPrinter::Visit" or "TiXmlText" in g.id) and isinstance(third, list) and third[0] == "lit"
             chk.judge(allowed, "XMLESC", key + ":keepQuotes-only-for-element-text", "%s:%d" % (g.file, e["line"]),
                       "%s writes with quotes unescaped; only element text (%s) may do that -- attribute values are delimited by quote characters" % (g.name, sorted(KEEP_QUOTES_ALLOWED)))
-    chk.judge(n >= 5, "XMLESC", "EncodeString-call-sites>=5", "", "%d call sites examined" % n)
+    chk.shape(n >= 5, "XMLESC", "EncodeString-call-sites>=5", "", "%d call sites examined" % n)
     # attribute delimiters: value is written between quote characters, hence must have been encoded with quotes escaped (covered above); name too
     # reader
     g = (P.fns_named("SimTK::TiXmlBase::GetEntity") or [None])[0]
@@ -220,7 +220,7 @@ def table(chk, P):
                 for y in sx_find(e["x"], lambda y: y[0] == "cond"):
                     pass
             emitted[f.d["params"][0][1]] = lits
-    chk.judge(set(emitted) == {"float", "double"}, "TABLE", "writers-found", "", "String(float) and String(double) found")
+    chk.shape(set(emitted) == {"float", "double"}, "TABLE", "writers-found", "", "String(float) and String(double) found")
     for t, reader in (("float", "SimTK::String::tryConvertToFloat"), ("double", "SimTK::String::tryConvertToDouble")):
         r = P.fn(reader)
         accepted = set()
